@@ -142,6 +142,38 @@ def build(case):
             e = np.concatenate([e, np.array(newe, dtype=int)])
             c = np.concatenate([c, np.array(newc, dtype=int)])
         return p, e, c
+    if f == "pinch":                # small triangles hung inside (convex) faces from one of their corners: the face then
+        p, e, c = build(case["base"])      # visits that corner twice without using any edge twice (a pinched, still valid, plaquette)
+        rng = np.random.default_rng([case["seed"], len(e), 17])
+        lat = Lattice(p, e, c)
+        newp, newe, newc = [], [], []
+        for pl in lat.plaquettes:
+            if rng.uniform() >= case.get("frac", 0.5) or len(pl.vertices) < 3:
+                continue
+            vec = lat.edges.vectors[pl.edges] * pl.directions[:, None]
+            cr = vec[:, 0] * np.roll(vec[:, 1], -1) - vec[:, 1] * np.roll(vec[:, 0], -1)
+            if not np.all(cr > 1e-9):
+                continue
+            k = int(rng.integers(0, len(pl.vertices)))
+            pts = p[pl.vertices[0]] + np.concatenate([[[0.0, 0.0]], np.cumsum(vec, 0)[:-1]])
+            d = pl.center - pts[k]
+            perp = np.array([-d[1], d[0]])
+            shift = np.round(pts[k] - p[pl.vertices[k]])
+            ids = []
+            for q in (pts[k] + 0.3 * d + 0.08 * perp, pts[k] + 0.3 * d - 0.08 * perp):
+                q = q - shift
+                n = np.floor(q)
+                newp.append(q - n)
+                ids.append((len(p) + len(newp) - 1, n.astype(int)))
+            v = int(pl.vertices[k])
+            (a, na), (b, nb) = ids
+            newe += [[v, a], [a, b], [b, v]]
+            newc += [na, nb - na, -nb]
+        if newp:
+            p = np.concatenate([p, np.array(newp)])
+            e = np.concatenate([e, np.array(newe, dtype=int)])
+            c = np.concatenate([c, np.array(newc, dtype=int)])
+        return p, e, c
     if f == "face_last":            # sweep-order adversary: one chosen plaquette F gets all its edges listed first and stored
         p, e, c = build(case["base"])      # against its direction of travel, so F can only be found by a backward search
         rng = np.random.default_rng([case["seed"], len(e), 13])
@@ -269,6 +301,12 @@ def lattice_cases(tier, seed, exhaustive=True):
         pc = {"family": "pendant", "base": b, "seed": int(rng.integers(0, 2**31)), "frac": float(rng.choice([0.5, 0.75, 0.9]))}
         cases.append({"family": "relabel", "base": pc, "seed": int(rng.integers(0, 2**31)), "flip": 0.5, "vertices": False})
         cases.append({"family": "face_last", "base": pc, "seed": int(rng.integers(0, 2**31))})
+    # pinched faces: a valid plaquette that visits a vertex twice (vertex tables must list it once)
+    for i in range(min(len(pbase), 40 if tier == "quick" else 300)):
+        b = pbase[int(rng.integers(0, len(pbase)))]
+        pc = {"family": "pinch", "base": b, "seed": int(rng.integers(0, 2**31)), "frac": float(rng.choice([0.3, 0.6]))}
+        cases.append(pc)
+        cases.append({"family": "relabel", "base": pc, "seed": int(rng.integers(0, 2**31)), "flip": 0.5, "vertices": bool(i % 2)})
     if exhaustive:
         cases += exhaustive_subset_cases(ex_edges)
         # and relabelled edge subsets of the small bases (dangling edges inside faces, bridges, ...)
